@@ -55,3 +55,26 @@ Definition group_mem (g : list string) (l : list (list string)) : bool :=
 Definition groups_eqb (a b : list (list string)) : bool :=
   Nat.eqb (length a) (length b) &&
   forallb (fun g => group_mem g b) a && forallb (fun g => group_mem g a) b.
+
+(** * the same specification, said with paths *)
+(** a branch that is not shorter than the threshold counts 1, a shorter one 0: the sum over
+    the path between two tips ([pairdists] of Spec/Obs.v with this weight) is the number of
+    long branches on the path; two tips are joined by a path of branches all shorter than the
+    threshold exactly when this number is 0. *)
+Definition w_long (maxlen : Q) (e : einfo) : Q := if is_short maxlen e then 0%Q else 1%Q.
+
+Definition joined (maxlen : Q) (t : utree) (a b : string) : bool :=
+  match dist_opt (w_long maxlen) t a b with
+  | Some d => Qeq_bool d 0%Q
+  | None => false
+  end.
+
+Definition same_bag (bags : list (list string)) (a b : string) : bool :=
+  existsb (fun g => smem a g && smem b g) bags.
+
+(** the bags are the classes of [joined]: every tip is in exactly one bag, and two tips are in
+    the same bag exactly when they are joined *)
+Definition bags_are_classes (maxlen : Q) (t : utree) (bags : list (list string)) : bool :=
+  let ts := leaves t in
+  list_eqb String.eqb (ssort (concat bags)) (ssort ts) &&
+  forallb (fun a => forallb (fun b => Bool.eqb (joined maxlen t a b) (same_bag bags a b)) ts) ts.
